@@ -352,10 +352,10 @@ class Ctx:
                         witness=None if ok else {"path": body.describe_path(p), "unit": body.defq},
                         site_key=f"{body.defq}")
 
-    def after_ok(self, oid, a_call, targets, detail="", polarity="ok"):
+    def after_ok(self, oid, a_call, targets, detail="", polarity="ok", extra_transparent=()):
         """every target is reachable only through an ok-edge of a_call ('A succeeded before B')"""
         body = a_call.body
-        edges, _ = self.ok_edges(a_call, polarity)
+        edges, _ = self.ok_edges(a_call, polarity, extra_transparent)
         if not edges:
             return self.add(oid, "DOM", False,
                             f"result of {a_call.path} is never tested in {body.defq}: {detail}",
